@@ -138,7 +138,7 @@ class TypeMap:
         if args is not None:
             if b in ('std::vector', 'vector'):
                 et = self.c(args[0])
-                if self.kinds.get(et, ('',))[0] == 'vec' or et == 'c_opaque':
+                if self.kinds.get(et, ('',))[0] == 'vec':
                     return 'c_opaque'      # nested unbounded arrays are not supported by CBMC: unmodelled object
                 return self.vec(et)
             if b in ('std::basic_string', 'basic_string', 'std::basic_string_view', 'basic_string_view'):
